@@ -57,6 +57,12 @@ class _HMixin:
             raise RuntimeError("injected fault in functor")
         if dur:
             self.sh.nap(dur)
+        flags = x[4] if len(x) > 4 else ""
+        if flags:
+            # twins (equal-but-different items) / exception objects as ordinary results: as in pool_engine._simple_functor
+            if "E" in flags and int(idx) % 5 == 0 and not isinstance(idx, float):
+                return ValueError(f"e{call}:{idx}")
+            return (call, idx, type(idx).__name__)
         return (call, idx, "r" * x[3]) if len(x) > 3 and x[3] else (call, idx)
 
     def end(self):
